@@ -185,7 +185,8 @@ theorem foldl_addFeature_spec : ∀ (fs : List Feature) (l : List (Token × List
       · exact Or.inr (Or.inr h)
 
 /-- the index built from `fs` by the tokenisation rule holds exactly the postings `IndexInv` asks for -/
-theorem buildIndex_inv (kind : LeafKind) (fs : List Feature) : IndexInv fs (buildIndex kind fs) := by
+theorem buildIndex_inv (kind : LeafKind) (fs : List Feature) (names : List String := []) :
+    IndexInv fs (buildIndex kind fs names) := by
   obtain ⟨h1, h2⟩ := foldl_addFeature_spec fs [] ⟨by simp, by simp⟩
   refine ⟨h1, fun t x => ?_⟩
   rw [get_eq_getL]
